@@ -292,7 +292,7 @@ func c01r3(w *World, rr *RuleRun) {
 			if !w.LK.touch[c][r] || !w.P.IsLib(r) {
 				continue
 			}
-			ex := w.LK.sum[lockCtx{r, c, LS0}]
+			ex := w.LK.sum[mkCtx(r, c, LS0, Env{})]
 			ok := len(ex) == 1 && ex[LS0]
 			if ok {
 				n++
@@ -339,8 +339,9 @@ func c01r4(w *World, rr *RuleRun) {
 func c01r5(w *World, rr *RuleRun) {
 	pp := w.P.Func("(*Server).processPacket")
 	reach := w.CG.Reach([]*ssa.Function{pp}, func(e *Edge) bool { return e.Mode != ModeGo })
+	reachCtx := w.CG.ReachCtx([]*ssa.Function{pp}, w.TS, func(e *Edge) bool { return e.Mode != ModeGo })
 	var fs []*ssa.Function
-	for f := range reach {
+	for f := range reachCtx {
 		fs = append(fs, f)
 	}
 	sort.Slice(fs, func(i, j int) bool { return fs[i].String() < fs[j].String() })
